@@ -49,6 +49,7 @@ THEOREMS_DOC = {
     "C18_nonnumeric_fallback_unfixed_refuted": "history (finding version/container-word, fixed by b5ee08d): without the container test and with awesomeversion's verdict on 'dev' the digit-free string was kept and selected the 2.2 constants; with the test it gives 1.4",
     "C18_alert_effect": "Gateway.alert (facts from its AST): callback invoked iff configured; with persistence on every alert marks the network changed, with or without a callback",
     "C18_generated_matches_spec": "generated CONST_VERSIONS/defaults = Spec's supported list; documented examples use documented keywords only",
+    "C18_core_machine_version_agrees": "on dotted numeric strings the hand-written version verdicts of the core machine (Base/Version.v: ver_ge14, safe_num, const_index) equal is_version / safe_is_version / get_const of this model over the GENERATED tests, key order and module table; num_ge = the spec order le_numb",
 }
 
 # ------------------------------------------------------------------ the documented interface (mirror of Spec/ConfigSpec.v)
